@@ -31,6 +31,7 @@ template <typename ForwardIt, typename Size, typename ValueT, typename Predicate
             }
         } else {
             localCounter = 0;
+            found        = nullptr;
         }
 
         if (localCounter == count) {
